@@ -358,7 +358,10 @@ fn main() {
                     // ends at or before its start
                     for (bi, t) in prog.toks.iter().enumerate() {
                         if bi % 3 != ci % 3 { continue; }
-                        for &(rs, re) in &[(t.end, prog.text.len()), (t.start, t.end), (t.end, t.end)] {
+                        // ... and ranges that begin or end strictly inside a token
+                        let mid = if t.end - t.start >= 2 { t.start + 1 } else { t.start };
+                        for &(rs, re) in &[(t.end, prog.text.len()), (t.start, t.end), (t.end, t.end), (0, mid), (mid, prog.text.len())] {
+                            if rs > re || !prog.text.is_char_boundary(rs) || !prog.text.is_char_boundary(re) { continue; }
                             let r = syntax::TextRange::new((rs as u32).into(), (re as u32).into());
                             let sub = a.syntax_highlight(M1, Some(r)).unwrap();
                             queries += 1;
